@@ -85,6 +85,28 @@ func (e *HTTPErrorExpr) Validate() *eval.ValidationErrors {
 			verr.Add(e.Response, "error type must be a primitive type or an array of primitive types.")
 		}
 	}
+
+	// validate cookies
+	if e.Response.Cookies != nil && !e.Response.Cookies.IsEmpty() {
+		verr.Merge(e.Response.Cookies.Validate("HTTP error response cookies", e.Response))
+		switch {
+		case ee.Type == Empty:
+			verr.Add(e.Response, "response defines cookies but error type is empty")
+		case IsObject(ee.Type):
+			for _, c := range *AsObject(e.Response.Cookies.Type) {
+				att := ee.Find(c.Name)
+				if att == nil {
+					verr.Add(e.Response, "cookie %q has no equivalent attribute in error type, use notation 'attribute_name:cookie_name' to identify corresponding error type attribute.", c.Name)
+				} else if !IsPrimitive(att.Type) {
+					verr.Add(e.Response, "attribute %q used in HTTP cookies must be a primitive type.", c.Name)
+				}
+			}
+		case len(*AsObject(e.Response.Cookies.Type)) > 1:
+			verr.Add(e.Response, "response defines more than one cookies but error type is not an object")
+		case !IsPrimitive(ee.Type):
+			verr.Add(e.Response, "error type must be a primitive type to be mapped to an HTTP cookie.")
+		}
+	}
 	return verr
 }
 
